@@ -3,7 +3,8 @@
    followed by Print Assumptions.  The theorems hold for every list of tasks, every attribute
    population (present, None, absent), every combination of filters, every function standing for
    re.search and - where it matters - every attribute lookup. *)
-From PJ Require Import Base.Prelude Query.Query Query.QueryProofs gen.Consts.
+From PJ Require Import Base.Prelude Query.Query Query.QueryProofs Query.QueryConj gen.Consts.
+From Coq Require Import Permutation.
 From Coq Require Import NArith.
 Open Scope Z_scope.
 
@@ -35,6 +36,22 @@ Theorem C18_raises : forall k fs l,
   (forall c, query k fs l = Crash c ->
      c = TypeError /\ exists t f, In t l /\ In f fs /\ holds t f = Crash TypeError).
 Proof. exact (query_raises re_search ga). Qed.
+
+(* the keywords of one call are independent tests joined by "and": a task is selected iff the key accepts it and every
+   keyword, taken alone, holds for it - two keywords on the same attribute (a range x_ge_ .. x_le_, a pattern with an
+   exception name_like_ .. name_not_like_) included; a call with the keywords fs ++ gs returns what the call with gs
+   selects among what the call with fs selects; the order in which the keywords are written does not matter *)
+Theorem C18_each_keyword : forall k fs t,
+  sat k fs t = true <-> key_ok k t = true /\ forall f, In f fs -> holds t f = Ok true.
+Proof. exact (sat_each re_search ga). Qed.
+
+Theorem C18_keywords_intersect : forall k fs gs l r, query k (fs ++ gs) l = Ok r ->
+  r = filter (sat k gs) (filter (sat k fs) l).
+Proof. exact (query_app re_search ga). Qed.
+
+Theorem C18_keyword_order : forall k fs gs l r r', Permutation fs gs ->
+  query k fs l = Ok r -> query k gs l = Ok r' -> r = r'.
+Proof. exact (query_perm re_search ga). Qed.
 
 Theorem C18_callable : forall p l, query (KeyFun p) [] l = Ok (filter p l).
 Proof. exact (query_callable re_search ga). Qed.
@@ -207,6 +224,9 @@ Print Assumptions C18_select.
 Print Assumptions C18_select_total.
 Print Assumptions C18_members.
 Print Assumptions C18_raises.
+Print Assumptions C18_each_keyword.
+Print Assumptions C18_keywords_intersect.
+Print Assumptions C18_keyword_order.
 Print Assumptions C18_callable.
 Print Assumptions C18_suffix.
 Print Assumptions C18_suffix_plain.
